@@ -2,7 +2,8 @@
 """copy confirmed seeds from /tmp/seed/Cxx/SEED/n into /verif/seeded/<id>/ with meta.json (confirmation results)"""
 import json, os, shutil, sys, re
 conf = {}
-for f in ('/tmp/seed/confirm1.jsonl', '/tmp/seed/confirm2.jsonl'):
+OFFSET = int(sys.argv[2]) if len(sys.argv) > 2 else 0      # wave 2: seeds 1,2 are stored as s3,s4
+for f in (sys.argv[1:2] or ['/tmp/seed/confirm1.jsonl', '/tmp/seed/confirm2.jsonl']):
     for l in open(f):
         l = l.strip()
         if l.startswith('{'):
@@ -13,14 +14,15 @@ for key, c in sorted(conf.items()):
     ok = c['applies'] and c['builds'] and c['suite_ok'] == 292 and c['suite_not_ok'] == 0 and c['suite_rc'] == 0 and c['demo_with'] != 0 and c['demo_without'] == 0
     if not ok:
         print('skip', key, c); continue
-    sid = f'{prop}-s{n}'
+    sid = f'{prop}-s{int(n) + OFFSET}'
     dst = f'/verif/seeded/{sid}'
     src = f'/tmp/seed/{prop}/SEED/{n}'
     os.makedirs(dst, exist_ok=True)
-    for fn in ('patch.diff', 'demo.c', 'run.sh', 'NOTES.md'):
-        if os.path.exists(os.path.join(src, fn)):
-            shutil.copy(os.path.join(src, fn), os.path.join(dst, fn))
-    if prop == 'C19':
+    for fn in sorted(os.listdir(src)):
+        p = os.path.join(src, fn)
+        if os.path.isfile(p) and not fn.startswith('.') and os.path.getsize(p) < 200000 and (fn in ('patch.diff', 'NOTES.md') or fn.endswith(('.c', '.sh', '.h', '.py'))):
+            shutil.copy(p, os.path.join(dst, fn))
+    if prop == 'C19' and os.path.exists('/tmp/seed/C19/SEED/stub/isal_stub.c'):
         os.makedirs(os.path.join(dst, 'stub'), exist_ok=True)
         shutil.copy(f'/tmp/seed/C19/SEED/stub/isal_stub.c', os.path.join(dst, 'stub', 'isal_stub.c'))
     notes = open(os.path.join(src, 'NOTES.md')).read() if os.path.exists(os.path.join(src, 'NOTES.md')) else ''
